@@ -262,62 +262,7 @@ func (w *originWalker) elems(s ssa.Value, at ssa.Instruction, chain []ssa.CallIn
 	}
 	switch x := root.(type) {
 	case *ssa.MakeSlice:
-		// all stores into the slice in the defining function and its closures
-		fn := x.Parent()
-		n := 0
-		for _, f := range WithClosures(fn) {
-			for _, b := range f.Blocks {
-				for _, ins := range b.Instrs {
-					st, ok := ins.(*ssa.Store)
-					if !ok {
-						continue
-					}
-					ia, ok := st.Addr.(*ssa.IndexAddr)
-					if !ok {
-						continue
-					}
-					if sliceRoot(ia.X) == root {
-						w.value(st.Val, st, chain, d+1)
-						n++
-					}
-				}
-			}
-		}
-		_ = n
-		// also: the slice may be passed to a module callee that writes it (e.g. checkAttestationsData(results))
-		for _, f := range WithClosures(fn) {
-			for _, b := range f.Blocks {
-				for _, ins := range b.Instrs {
-					ci, ok := ins.(ssa.CallInstruction)
-					if !ok {
-						continue
-					}
-					for ai, a := range ci.Common().Args {
-						if sliceRoot(a) != root {
-							continue
-						}
-						callee := ci.Common().StaticCallee()
-						if callee == nil || callee.Blocks == nil || !prog.InModule(callee) {
-							if _, isB := ci.Common().Value.(*ssa.Builtin); isB {
-								continue // len, copy source etc.
-							}
-							if callee != nil && !prog.InModule(callee) {
-								continue // third-party callee: assumed not to write enum slices
-							}
-							w.opaque(a, ins, chain)
-							continue
-						}
-						pi := ai
-						if callee.Signature.Recv() != nil && !ci.Common().IsInvoke() {
-							// receiver is args[0]
-						}
-						if pi < len(callee.Params) {
-							w.paramElemStores(callee, callee.Params[pi], append(append([]ssa.CallInstruction{}, chain...), ci), d+1)
-						}
-					}
-				}
-			}
-		}
+		w.localWrites(root, x.Parent(), at, chain, d)
 	case *ssa.Call:
 		callee := x.Call.StaticCallee()
 		if callee == nil || callee.Blocks == nil || !prog.InModule(callee) {
@@ -330,6 +275,8 @@ func (w *originWalker) elems(s ssa.Value, at ssa.Instruction, chain []ssa.CallIn
 				w.elems(an.Result(ret, 0), ret, nchain, d+1)
 			}
 		}
+		// the slice a helper hands back is also written by the function that received it
+		w.localWrites(root, x.Parent(), at, chain, d)
 	case *ssa.Extract:
 		if c, ok := x.Tuple.(*ssa.Call); ok {
 			callee := c.Call.StaticCallee()
@@ -398,6 +345,65 @@ func (w *originWalker) paramElemStores(callee *ssa.Function, p *ssa.Parameter, c
 				}
 				if sliceRoot(ia.X) == ssa.Value(p) {
 					w.value(st.Val, st, chain, d+1)
+				}
+			}
+		}
+	}
+}
+
+// localWrites collects what fn (and its closures) writes into the slice rooted at root: element stores, and stores made
+// by module callees the slice is passed to.
+func (w *originWalker) localWrites(root ssa.Value, fn *ssa.Function, at ssa.Instruction, chain []ssa.CallInstruction, d int) {
+	n := 0
+	for _, f := range WithClosures(fn) {
+		for _, b := range f.Blocks {
+			for _, ins := range b.Instrs {
+				st, ok := ins.(*ssa.Store)
+				if !ok {
+					continue
+				}
+				ia, ok := st.Addr.(*ssa.IndexAddr)
+				if !ok {
+					continue
+				}
+				if sliceRoot(ia.X) == root {
+					w.value(st.Val, st, chain, d+1)
+					n++
+				}
+			}
+		}
+	}
+	_ = n
+	// also: the slice may be passed to a module callee that writes it (e.g. checkAttestationsData(results))
+	for _, f := range WithClosures(fn) {
+		for _, b := range f.Blocks {
+			for _, ins := range b.Instrs {
+				ci, ok := ins.(ssa.CallInstruction)
+				if !ok {
+					continue
+				}
+				for ai, a := range ci.Common().Args {
+					if sliceRoot(a) != root {
+						continue
+					}
+					callee := ci.Common().StaticCallee()
+					if callee == nil || callee.Blocks == nil || !prog.InModule(callee) {
+						if _, isB := ci.Common().Value.(*ssa.Builtin); isB {
+							continue // len, copy source etc.
+						}
+						if callee != nil && !prog.InModule(callee) {
+							continue // third-party callee: assumed not to write enum slices
+						}
+						w.opaque(a, ins, chain)
+						continue
+					}
+					pi := ai
+					if callee.Signature.Recv() != nil && !ci.Common().IsInvoke() {
+						// receiver is args[0]
+					}
+					if pi < len(callee.Params) {
+						w.paramElemStores(callee, callee.Params[pi], append(append([]ssa.CallInstruction{}, chain...), ci), d+1)
+					}
 				}
 			}
 		}
